@@ -32,6 +32,7 @@
 
 // This project:
 #include <bxdecay0/utils.h>
+#include <bxdecay0/verif_hooks.h>
 
 namespace bxdecay0 {
 
@@ -51,8 +52,11 @@ namespace bxdecay0 {
     epsabs                       = 0.0;
     int count                    = 0;
     int status                   = 0;
+    BXDECAY0_VERIF_YIELD("gauss:pre_save");
     gsl_error_handler_t * gsl_eh = gsl_set_error_handler_off();
+    BXDECAY0_VERIF_YIELD("gauss:post_save");
     while (true) {
+      BXDECAY0_VERIF_YIELD("gauss:pre_qng");
       status = gsl_integration_qng(&F, min_, max_, epsabs, epsrel, &result, &abserr, &neval);
       /// TRACE
       // if (trace) {
@@ -85,7 +89,9 @@ namespace bxdecay0 {
       }
       /// TRACE if (trace) std::cerr << "[trace] bxdecay0::decay0_gauss: GSL_ETOL = " << "retrying..." << std::endl;
     }
+    BXDECAY0_VERIF_YIELD("gauss:post_integrate");
     gsl_set_error_handler(gsl_eh);
+    BXDECAY0_VERIF_YIELD("gauss:post_restore");
     if (status != 0) {
       std::ostringstream message;
       message << "bxdecay0::decay0_gauss: "
